@@ -33,10 +33,10 @@ LEVEL_NOTE = ("Scope of 'proof': the theorems are about the hand-written Rat mod
               "(both of its real answers are proved sound; an 'unknown' is reported; none observed). Static "
               "Solver: NOT proved that satisfy() never throws on an acyclic inequality system (the VPSC paper's merge "
               "invariant through the lazily repaired heaps) - that is observed per case by correspondence + the "
-              "proven checker; three facts of the heap discipline are checked dynamically by the model instead of "
-              "proved (flag HS.corrupt: a heap returns an internal constraint / one not entering the block; "
-              "findMinLM returns a constraint of another block) - a run setting it is no normal return and is "
-              "reported; the model is tied on unscaled inequality systems only; the static solver's two genuine "
+              "proven checker; one fact of the heap discipline is checked dynamically by the model instead of "
+              "proved (flag HS.corrupt: the heap of a block returns a constraint that does not end in that block) "
+              "- a run setting it is no normal return and is reported; a throw of UnsatisfiedConstraint by the "
+              "static solver on a certified-feasible inequality system is a SPECFAIL (flagged-iff-infeasible); the model is tied on unscaled inequality systems only; the static solver's two genuine "
               "defects (equalities ignored - reproduced by the model, witness in Props/C01Static; scaled split) "
               "are known findings watched by the 'findings' stream.")
 TECHNIQUE = ("Lean 4 theorems (certified Bellman-Ford feasibility checker, post-condition checker, Rat model of "
